@@ -38,10 +38,10 @@ theorem decodeRune_encodeRune (r : Nat) (h : Scalar r) (rest : Bytes) :
     · have c3 : (isSurrogate r || decide (0x10FFFF < r)) = false := by
         simp [isSurrogate]; omega
       by_cases c4 : r < 0x10000
-      · simp [c1, c2, c3, c4, decodeRune, isCont]
+      · simp [c1, c2, c3, c4, decodeRune, isCont, accept3, accept4]
         repeat' split
         all_goals first | omega | (simp; omega)
-      · simp [c1, c2, c3, c4, decodeRune, isCont]
+      · simp [c1, c2, c3, c4, decodeRune, isCont, accept3, accept4]
         repeat' split
         all_goals first | omega | (simp; omega)
 
